@@ -19,10 +19,14 @@ except FileNotFoundError:
 hook_commits = [l.strip() for l in open(os.path.join(root, 'MANIFEST.hooks')) if l.strip() and not l.startswith('#')]
 baseline = json.load(open('/root/.vp/BASELINE.json'))['cmd'] if os.path.exists('/root/.vp/BASELINE.json') else \
     "cd /repo/go && go test -vet=off -count=1 -timeout 25m ./..."
+ready = set(l.split()[0] for l in open(os.path.join(root, 'ready.txt')) if l.strip() and not l.startswith('#'))
 checks, na = [], []
 for p in props:
     pid = p['id']
     m = meta.get(pid)
+    if m and pid not in ready:
+        na.append({"property_id": pid, "reason": "check under construction / not yet reviewed and validated on the unchanged tree; nothing is claimed about it yet"})
+        continue
     if not m:
         na.append({"property_id": pid, "reason": not_claimed.get(pid, "no check built yet for this property (planned design: DESIGN.md §4); nothing is claimed about it")})
         continue
@@ -39,6 +43,8 @@ for p in props:
     })
 engines = {}
 for pid, m in meta.items():
+    if pid not in ready:
+        continue
     engines.setdefault(m["engine"], []).append(pid)
 man = {
     "version": 1,
